@@ -12,6 +12,14 @@ claimed = {
          "Structural necessary conditions, each decided exactly; under the stated library contracts they compose to the round-trip argument of DESIGN 3.C03. Not a proof of the library calls themselves."),
  "C06": ("proof", AI + " on a universe exhaustive by data independence: complete decision tables with callee oracles; loop-shape check for induction over list length", "3.C06",
          "Complete decision tables of Is/IsWildcard/Matches/GetPossibilities/GetAllPossibilities/GetSubstvars/SatisfiedBy against the property's specification, exhaustive up to renaming."),
+ "C13": ("other", AI + " of LoadAr / Ar.Next / the header parser on a symbolic 60 byte header (opaque byte tokens, symbolic sizes, linear offsets)", "3.C13",
+         "Column provenance of every entry field, name trimming, member reader placement, offset arithmetic, freshness, global and header magic, short reads are decided for every header; byte equality of the delivered data rests on io.SectionReader."),
+ "C14": ("other", "SSA dominance rules over canonical terms, decompressor table extraction from the package initialiser, error-discipline and map-order dataflow rules, " + AI + " of IsTarfile", "3.C14",
+         "Format checks, codec wiring, extension slicing, control lookup, determinism and index completeness are decided structurally; tar/decompressor behaviour is trusted."),
+ "C15": ("other", AI + " of Ar.Next on a symbolic header (progress >= 60 bytes per member with size >= 0 on the path, header magic, short reads) + loop-exit, map-order, fatal-call and bounds rules", "3.C15",
+         "Termination bound and consistency clauses decided for every header; delivery of exactly size bytes on truncated input is not decided."),
+ "C16": ("other", "SSA term/dataflow rules on CheckDebsig (exact role lookup, ordered MultiReader of rewound members, results unchanged) + shared-selector and map-order rules", "3.C16",
+         "The wrapper obligations that turn the OpenPGP library's guarantee into the property are decided; the library is trusted."),
  "C10": ("other", "type-level struct-tag tables against Debian field tables; SSA rules on the list decoder; " + AI + " of line parsers and accessors", "3.C10",
          "116 field instances and the decoder/accessor tables are decided exactly; equality with a document model for every document is not decided."),
 }
